@@ -1054,6 +1054,39 @@ def rule_group_merge_mentions(ctx, R):
     repo = ctx.repo
     gfacls = repo.cls("Gfa")
 
+    # what taking the place of a line consists of (the four steps of
+    # VirtualToReal._substitute_virtual_line, whose own order and content
+    # C03 decides): the references the previous definition makes, the
+    # back-references to it from its items, and -- the previous definition
+    # being a line others may mention -- the back-references it has received
+    # (sets / paths it is an item of) and the mentions of it in those lines
+    v2r = ctx.anchor("Line._substitute_virtual_line", repo.cls(
+        "line.group.Unordered").find_method("_substitute_virtual_line"))
+    grp = repo.cls("line.group.Unordered")
+
+    def steps_of(f, seen):
+        """leaf calls self.<step>(<the previous line>) reached from f"""
+        pp = f.params[1] if len(f.params) > 1 else None
+        out = []
+        for n in ast.walk(f.node):
+            if isinstance(n, ast.Call) and \
+                    isinstance(n.func, ast.Attribute) and \
+                    isinstance(n.func.value, ast.Name) and \
+                    n.func.value.id == f.self_name and len(n.args) == 1 and \
+                    isinstance(n.args[0], ast.Name) and n.args[0].id == pp:
+                g = grp.find_method(n.func.attr)
+                sub = steps_of(g, seen | {f}) if g is not None and \
+                    g not in seen else []
+                for x in (sub or [n.func.attr]):
+                    if x not in out:
+                        out.append(x)
+        return out
+    TAKEOVER = steps_of(v2r, frozenset())
+    if len(TAKEOVER) < 4:
+        raise AnalysisError("anchor vanished: the takeover steps "
+                            "self.<step>(previous) of _substitute_virtual_line"
+                            " (found %r)" % TAKEOVER)
+
     class MH(LineHooks):
         def before_inline(self, ev, func, args, kwargs):
             if func.name == "_initialize_references":
@@ -1063,6 +1096,19 @@ def rule_group_merge_mentions(ctx, R):
                 args[0].attrs["_data"]["items"] = list(
                     args[1].attrs["_data"]["items"])
                 args[0].attrs["_gfa"] = args[1].attrs["_gfa"]
+                for step in TAKEOVER:
+                    ev.events.append(("takeover", step))
+                return None
+            if func.name in TAKEOVER:
+                # the steps of a substitution, when the merge spells them
+                # out instead of calling _substitute_virtual_line
+                if not args[0].attrs.get("__took_fields__"):
+                    # (the data effect of the takeover as a whole, applied
+                    # at its first step)
+                    args[0].attrs["__took_fields__"] = True
+                    args[0].attrs["_data"]["items"] = list(
+                        args[1].attrs["_data"]["items"])
+                ev.events.append(("takeover", func.name))
                 return None
             if func.name in ("_set_existing_field", "set"):
                 args[0].attrs["_data"][args[1]] = args[2]
@@ -1106,6 +1152,17 @@ def rule_group_merge_mentions(ctx, R):
             ctx.violation(R, f.short, "record=%s,previous=a b,new=b c" % rt,
                           "outcome %s; merged items %r, expected "
                           "['a', 'b', 'b', 'c']" % (out[0], got))
+        ctx.instance(R)
+        steps = [e[1] for e in out[2] if e[0] == "takeover"]
+        missing = [t for t in TAKEOVER if t not in steps]
+        ctx.oblige(not missing)
+        if missing:
+            ctx.violation(R, f.short, "record=%s,takeover of the previous "
+                          "definition" % rt,
+                          "the merged line does not perform %s for the line "
+                          "it replaces: groups that list the previous "
+                          "definition keep pointing at a line that is no "
+                          "longer in the Gfa" % ", ".join(missing))
     ctx.exhaustive[R] = True
 
 
